@@ -15,7 +15,7 @@ use std::time::Duration;
 
 pub struct C07;
 
-pub const STATES: [&str; 16] = [
+pub const STATES: [&str; 17] = [
     "clean",
     "clean-multi",
     "warn-deprecated",
@@ -32,6 +32,7 @@ pub const STATES: [&str; 16] = [
     "err-rule-violation",
     "err-redefinition-across-files",
     "err-bad-file-attribute-in-module-less-file",
+    "err-non-utf8-file",
 ];
 
 pub fn clean_text(i: usize) -> String {
@@ -46,6 +47,10 @@ pub fn reply_with_file(path: &str, contents: &str) -> Vec<u8> {
     out.push(0xFC); // tag end marker (varint -1)
     out.extend(wire::enc_varuint(0).unwrap()); // no diagnostics
     out
+}
+
+fn is_ref_planned(_is_ref: &[bool]) -> bool {
+    false // the first file is always a source
 }
 
 fn should_generate_label(error_expected: bool, dry_run: bool) -> bool {
@@ -64,7 +69,10 @@ fn case(cx: &mut CaseCtx, input: Input) -> CaseResult {
     let allow = pick(&mut u, 4);
     let outdir = pick(&mut u, 2) == 1;
     let failing_gen = if ngen > 0 && pick(&mut u, 3) == 0 { Some(pick(&mut u, ngen)) } else { None };
-    let fail_mode = pick(&mut u, 3);
+    let fail_mode = pick(&mut u, 4);
+    // fail mode 3: the generator fails without reading its input, and the request is larger than a pipe
+    // buffer (the first file gets a few thousand more definitions)
+    let big_request = fail_mode == 3 && failing_gen.is_some();
     // independently of the state: the first file named twice (DuplicateFile warning before parsing)
     let also_duplicate = pick(&mut u, 4) == 0;
 
@@ -120,6 +128,15 @@ fn case(cx: &mut CaseCtx, input: Input) -> CaseResult {
         } else {
             clean_text(i)
         };
+        let text = if big_request && i == 0 && !is_ref_planned(&is_ref) {
+            let mut t = text;
+            for k in 0..4000 {
+                t.push_str(&format!("struct Filler{k} {{ a: int32, b: string? }}\n"));
+            }
+            t
+        } else {
+            text
+        };
         dir.write(&format!("f{i}.slice"), text.as_bytes());
         let reference = i > 0 && pick(&mut u, 3) == 0;
         is_ref.push(reference);
@@ -147,6 +164,22 @@ fn case(cx: &mut CaseCtx, input: Input) -> CaseResult {
         }
     }
     match state {
+        "err-non-utf8-file" => {
+            // a byte that is not UTF-8, in a comment / a doc comment / a string argument / an identifier
+            error_expected = true;
+            let text: &[u8] = [
+                &b"module M\n// caf\xe9 au lait\nstruct Latin {}\n"[..],
+                &b"module M\n/// caf\xe9\nstruct Latin {}\n"[..],
+                &b"module M\n[foo::bar(\"caf\xe9\")] struct Latin {}\n"[..],
+                &b"module M\nstruct Caf\xe9 {}\n"[..],
+            ][pick(&mut u, 4)];
+            dir.write("latin1.slice", text);
+            if pick(&mut u, 2) == 0 {
+                groups.push(vec![os("-R"), os("latin1.slice")]);
+            } else {
+                groups.push(vec![os("latin1.slice")]);
+            }
+        }
         "err-bad-file-attribute-in-module-less-file" => {
             // a file that consists of a file attribute which is illegal there, and nothing else
             error_expected = true;
@@ -206,7 +239,9 @@ fn case(cx: &mut CaseCtx, input: Input) -> CaseResult {
     for g in 0..ngen {
         let mut cfg = format!("reply_hex={}\n", to_hex(&reply_with_file(&format!("gen{g}.out"), "generated")));
         if failing_gen == Some(g) {
-            if fail_mode == 2 {
+            if fail_mode == 3 {
+                cfg.push_str("read=none\nexit=3\n");
+            } else if fail_mode == 2 {
                 // a complete, valid reply - and then the generator is killed
                 cfg.push_str(["signal=9\n", "signal=11\n", "signal=15\n"][pick(&mut u, 3)]);
             } else if fail_mode == 0 || json_mode {
@@ -272,6 +307,7 @@ fn case(cx: &mut CaseCtx, input: Input) -> CaseResult {
     cx.label_if(allow == 1 && warning_expected, "allow-all-with-warnings");
     cx.label_if(also_duplicate && error_expected, "duplicate-file-warning-next-to-an-error");
     cx.label_if(failing_gen.is_some() && fail_mode == 2 && should_generate_label(error_expected, dry_run), "generator-killed-after-complete-reply");
+    cx.label_if(big_request && should_generate_label(error_expected, dry_run) && state != "err-syntax", "generator-fails-without-reading-a-large-request");
     cx.sample_with(|| json!({"argv": args.iter().map(|a| a.to_string_lossy().into_owned()).collect::<Vec<_>>(), "state": state, "victim_file": victim}));
 
     let r = proc::run_slicec(&dir.path, &args, &[], Duration::from_secs(30));
@@ -344,7 +380,7 @@ impl Check for C07 {
         "C07"
     }
     fn rule(&self) -> String {
-        "proptest choice sequences -> (program state out of 15: clean, warnings only by three different lints, exactly one error of each phase incl. three kinds of I/O error and a redefinition across files, placed in any one of 1..4 source / reference files; one more state: a module-less file holding only an illegal file attribute; now and then an extra empty / comment-only source or reference file; with -O the working directory may already hold identical output files) x 0..3 instrumented fake generators (one optionally failing by exit status, by stderr output, or by being killed by a signal after a complete valid reply) x --dry-run x human/json x -A lists x -O / --output-dir= x the first file optionally named twice (DuplicateFile warning next to any state) x option order (as built, or options inserted at drawn positions among the files and generators); run through the real binary; oracle: invocation log of each generator exists <=> no error and no --dry-run, output files appear only then (and not for the failing generator), exit status != 0 <=> an error diagnostic was emitted (JSON lines / 'error [' headers). Non-trivial = >= 1 generator and not the plain clean run".into()
+        "proptest choice sequences -> (program state out of 15: clean, warnings only by three different lints, exactly one error of each phase incl. three kinds of I/O error and a redefinition across files, placed in any one of 1..4 source / reference files; one more state: a module-less file holding only an illegal file attribute; now and then an extra empty / comment-only source or reference file; with -O the working directory may already hold identical output files) x 0..3 instrumented fake generators (one optionally failing by exit status, by stderr output, by being killed by a signal after a complete valid reply, or by exiting without reading a request that is larger than a pipe buffer) x --dry-run x human/json x -A lists x -O / --output-dir= x the first file optionally named twice (DuplicateFile warning next to any state) x option order (as built, or options inserted at drawn positions among the files and generators); run through the real binary; oracle: invocation log of each generator exists <=> no error and no --dry-run, output files appear only then (and not for the failing generator), exit status != 0 <=> an error diagnostic was emitted (JSON lines / 'error [' headers). Non-trivial = >= 1 generator and not the plain clean run".into()
     }
     fn assumptions(&self) -> Vec<String> {
         vec!["fake generators follow the documented protocol (read all of stdin, then reply)".into()]
@@ -378,6 +414,8 @@ impl Check for C07 {
             "state:err-rule-violation",
             "state:err-redefinition-across-files",
             "state:err-bad-file-attribute-in-module-less-file",
+            "state:err-non-utf8-file",
+            "generator-fails-without-reading-a-large-request",
             "module-less-reference-file",
             "module-less-source-file",
             "identical-files-in-cwd-with-output-dir",
